@@ -495,3 +495,192 @@ func substIdent(info *types.Info, e ast.Expr, obj types.Object, repl ast.Expr) a
 	}
 	return e
 }
+
+// ccittTablesOf resolves the base of an index expression to the package-level
+// code tables it can denote: a table variable itself, or a struct field that
+// is only ever set, in composite literals of the package, to table variables.
+func ccittTablesOf(c *core.Ctx, fn *core.Func, e ast.Expr) ([]*types.Var, bool) {
+	info := fn.Info()
+	pkg := fn.Pkg
+	isPkgVar := func(x ast.Expr, inf *types.Info) *types.Var {
+		id, ok := ast.Unparen(x).(*ast.Ident)
+		if !ok {
+			return nil
+		}
+		v, ok := inf.ObjectOf(id).(*types.Var)
+		if !ok || v.Pkg() == nil || v.Parent() != v.Pkg().Scope() {
+			return nil
+		}
+		return v
+	}
+	if v := isPkgVar(e, info); v != nil {
+		return []*types.Var{v}, true
+	}
+	sel, ok := ast.Unparen(e).(*ast.SelectorExpr)
+	if !ok {
+		return nil, false
+	}
+	s := info.Selections[sel]
+	if s == nil || s.Kind() != types.FieldVal {
+		return nil, false
+	}
+	field := s.Obj().(*types.Var)
+	var out []*types.Var
+	all := true
+	for _, f := range pkg.Syntax {
+		if c.Prog.IsTestFile(f.Pos()) {
+			continue
+		}
+		ast.Inspect(f, func(n ast.Node) bool {
+			switch x := n.(type) {
+			case *ast.AssignStmt:
+				for _, l := range x.Lhs {
+					if ls, ok := ast.Unparen(l).(*ast.SelectorExpr); ok {
+						if sl := pkg.TypesInfo.Selections[ls]; sl != nil && sl.Obj() == field {
+							all = false
+						}
+					}
+				}
+			case *ast.CompositeLit:
+				st, ok := pkg.TypesInfo.TypeOf(x).Underlying().(*types.Struct)
+				if !ok {
+					return true
+				}
+				idx := -1
+				for i := 0; i < st.NumFields(); i++ {
+					if st.Field(i) == field {
+						idx = i
+					}
+				}
+				if idx < 0 {
+					return true
+				}
+				var val ast.Expr
+				for i, el := range x.Elts {
+					if kv, isKV := el.(*ast.KeyValueExpr); isKV {
+						if id, isID := kv.Key.(*ast.Ident); isID && id.Name == field.Name() {
+							val = kv.Value
+						}
+					} else if i == idx {
+						val = el
+					}
+				}
+				if val == nil {
+					return true // zero value: indexing it panics, no code is emitted
+				}
+				if v := isPkgVar(val, pkg.TypesInfo); v != nil {
+					out = append(out, v)
+				} else {
+					all = false
+				}
+			}
+			return true
+		})
+	}
+	return out, all && len(out) > 0
+}
+
+// ruleCCITTEncoderTerminating: the encoder's side of "a run is make-up codes
+// followed by exactly one terminating code".  In the function that encodes
+// one run, no successful return may be reachable from the choice of a
+// make-up code without passing the choice of a terminating code: a run whose
+// length is a multiple of 64 still needs the terminating code for length 0
+// (T.4 4.1.1), or every decoder loses synchronisation.  Terminating tables
+// are the code tables with 64 entries (run lengths 0..63).
+func ruleCCITTEncoderTerminating(c *core.Ctx, rule string) {
+	c.Check(rule, ccittPk+".(*Writer).encode1DRun/terminating", "every run the encoder writes ends with a terminating code, also when the make-up codes already cover its length", func(o *core.Ob) {
+		fn := c.Prog.Func(ccittPk, "(*Writer).encode1DRun")
+		g := fn.Graph()
+		info := fn.Info()
+		var dTerm, dMk []*core.V
+		unknown := 0
+		for _, v := range g.Vs {
+			if v.AST == nil {
+				continue
+			}
+			var rhs []ast.Expr
+			switch x := v.AST.(type) {
+			case *ast.AssignStmt:
+				rhs = x.Rhs
+			case *ast.ValueSpec:
+				rhs = x.Values
+			case *ast.ReturnStmt:
+				rhs = x.Results
+			case *ast.ExprStmt:
+				rhs = []ast.Expr{x.X}
+			default:
+				continue
+			}
+			term, mk := false, false
+			for _, r := range rhs {
+				ast.Inspect(r, func(n ast.Node) bool {
+					ix, ok := n.(*ast.IndexExpr)
+					if !ok {
+						return true
+					}
+					t := info.TypeOf(ix)
+					if t == nil || !strings.HasSuffix(core.TypeString(t), "encodeNode") {
+						return true
+					}
+					tabs, ok := ccittTablesOf(c, fn, ix.X)
+					if !ok {
+						unknown++
+						return true
+					}
+					for _, tv := range tabs {
+						_, init, _ := c.Prog.Var(ccittPk, tv.Name())
+						cl, isCL := ast.Unparen(init).(*ast.CompositeLit)
+						if init == nil || !isCL {
+							unknown++
+							continue
+						}
+						if len(cl.Elts) == 64 {
+							term = true
+						} else {
+							mk = true
+						}
+					}
+					return true
+				})
+			}
+			if mk {
+				dMk = append(dMk, v)
+				o.At(fn.Site(v.AST, "chooses a make-up code"))
+			} else if term {
+				dTerm = append(dTerm, v)
+				o.At(fn.Site(v.AST, "chooses a terminating code"))
+			}
+		}
+		if !o.Shape(unknown == 0 && len(dTerm) > 0 && len(dMk) > 0, "the code tables used by encode1DRun were not all resolved (%d unresolved, %d terminating, %d make-up choices)", unknown, len(dTerm), len(dMk)) {
+			return
+		}
+		o.Fact("%d choices of a terminating code, %d of a make-up code", len(dTerm), len(dMk))
+		errEdges := errNotNilEdges(g)
+		for _, r := range g.Returns() {
+			rs, ok := r.AST.(*ast.ReturnStmt)
+			if !ok {
+				continue
+			}
+			if len(rs.Results) == 1 {
+				if _, isID := ast.Unparen(rs.Results[0]).(*ast.Ident); isID && !core.IsNil(info, rs.Results[0]) && g.EdgeDominates(r, errEdges...) {
+					continue // return err under err != nil
+				}
+			}
+			isTerm := false
+			for _, t := range dTerm {
+				if t == r {
+					isTerm = true
+				}
+			}
+			if isTerm {
+				continue
+			}
+			for _, d := range dMk {
+				if d == r || g.ReachFrom(d, false, core.AvoidVs(dTerm...))[r] {
+					o.FailAt(fn.Site(rs, ""), "%s: this return can be reached from the make-up code chosen at %s without a terminating code being chosen in between", c.Prog.Pos(rs.Pos()), c.Prog.Pos(d.AST.Pos()))
+					break
+				}
+			}
+		}
+	})
+}
